@@ -320,6 +320,22 @@ def negative_sierra_templates(out_dir):
         "libfunc struct_construct_pair = struct_construct<Pair>;\nlibfunc local_into_box_pair = local_into_box<Pair>;\nlibfunc store_temp_box = store_temp<BoxPair>;\nlibfunc drop_f = drop<felt252>;\n"
         "struct_construct_pair([0], [2]) -> ([3]);\ndrop_f([1]) -> ();\nlocal_into_box_pair([3]) -> ([4]);\nstore_temp_box([4]) -> ([4]);\nreturn([4]);\n\n"
         "verif::f@0([0]: felt252, [1]: felt252, [2]: felt252) -> (BoxPair);\n")
+    # libfunc instantiations that must be refused at specialization: the generated code would be wrong for them
+    def divrem(name, lhs_hi, rhs_lo, rhs_hi):
+        q_hi = lhs_hi // rhs_lo
+        if q_hi == lhs_hi:
+            q_hi -= 0  # same range as the dividend: reuse its declaration below
+        progs[name] = (
+            "type RangeCheck = RangeCheck;\ntype L = BoundedInt<0, %d>;\ntype R = BoundedInt<%d, %d>;\ntype NZR = NonZero<R>;\ntype Q = BoundedInt<0, %d>;\ntype Rem = BoundedInt<0, %d>;\n"
+            "libfunc div = bounded_int_div_rem<L, R>;\nlibfunc store_rc = store_temp<RangeCheck>;\nlibfunc store_q = store_temp<Q>;\nlibfunc store_rem = store_temp<Rem>;\n"
+            "div([0], [1], [2]) -> ([3], [4], [5]);\nstore_rc([3]) -> ([3]);\nstore_q([4]) -> ([4]);\nstore_rem([5]) -> ([5]);\nreturn([3], [4], [5]);\n\n"
+            "verif::f@0([0]: RangeCheck, [1]: L, [2]: NZR) -> (RangeCheck, Q, Rem);\n" % (lhs_hi, rhs_lo, rhs_hi, q_hi, rhs_hi - 1))
+        if q_hi == lhs_hi:
+            progs[name] = progs[name].replace("type Q = BoundedInt<0, %d>;\n" % q_hi, "").replace("<Q>", "<L>").replace(", Q, Rem)", ", L, Rem)")
+    divrem("divrem_small_rhs_quotient_over_2p128", 2**200 - 1, 1, 255)      # KnownSmallRhs, but the quotient does not fit a range check
+    divrem("divrem_quotient_exactly_2p128", 2**136, 256, 300)
+    divrem("divrem_rhs_over_2p128", 2**250, 2**128 + 2, 2**129)
+    divrem("divrem_everything_big", 2**250, 2**100, 2**126)
     for f in glob.glob(os.path.join(out_dir, "n_*.sierra")):
         os.unlink(f)
     for k, v in progs.items():
